@@ -178,6 +178,33 @@ class Ctx:
         return results
 
 
+def binding_selftest(ctx, module, cfg, trace_file, mutate, prop, what, max_lines=4000):
+    """Binding demonstration (guards against a vacuous trace specification): corrupt ONE logged record of a
+    real trace with `mutate(rec) -> bool`, validate again, and require that the specification objects
+    (a VIOLATION tuple for `prop`, or the trace is not accepted). Infra (exit 2) if the corrupted trace passes."""
+    out, done = [], False
+    with open(trace_file) as f:
+        for i, ln in enumerate(f):
+            if i >= max_lines:
+                break
+            if not done and ln.strip():
+                rec = json.loads(ln)
+                if mutate(rec):
+                    ln = json.dumps(rec) + "\n"
+                    done = True
+            out.append(ln)
+    if not done:
+        return "skipped: no record suitable for '%s' among the first %d" % (what, max_lines)
+    tf = os.path.join(ctx.scratch, "selftest-%s-%s.ndjson" % (module.replace(".tla", ""), prop))
+    with open(tf, "w") as f:
+        f.writelines(out)
+    r = ctx.tlc(module, cfg, workers=1, env={"TRACE": tf}, xmx="3g", tag="selftest-%s-%s" % (module.replace(".tla", ""), prop))
+    if r["rc"] == 0 and not r["errors"] and not any(t[0] == "VIOLATION" and t[1] == prop for t in r["tuples"]):
+        raise Infra("binding self-test: %s accepted a trace in which %s" % (module, what))
+    ctx.traces_validated -= 0
+    return "rejected: " + what
+
+
 def count_lines(p):
     n = 0
     with open(p, "rb") as f:
